@@ -22,6 +22,6 @@ Task: make ONE small source change to the project (non-test .go files; if you ch
  3. still passes the whole existing test suite (`go test -vet=off -count=1 ./...` in {wt}; note TestRunInteractive in the root package may be flaky/failing already - ignore that one),
  4. needs something specific to manifest (a particular input shape, value, boundary, schedule or history) - it should look like a plausible slip or a well-meant refactoring/optimisation, not sabotage, and it must not be a change that breaks nearly every program.
 {hint}
-Then write a demonstration: a Go test file (e.g. {wt}/vm/zz_demo_test.go or in the fitting package, name TestDemo{pid}) that FAILS with your change and PASSES on the original code, showing the property violated through the public API. Confirm all four points yourself by actually running the commands (build, full suite with the demo file moved aside, demo failing with the change, demo passing after `git stash`/checkout of the changed file and failing again after re-applying).
+Then write a demonstration: a Go test file (e.g. {wt}/vm/zz_demo_test.go or in the fitting package, name TestDemo{pid}) that FAILS with your change and PASSES on the original code, showing the property violated through the public API. Confirm all four points yourself by actually running the commands (build, full suite with the demo file moved aside, demo failing with the change, demo passing after `git apply -R patch.diff` and failing again after `git apply patch.diff`; do NOT use `git stash`: the stash is shared with other worktrees of the same repository and other people are working in them).
 
 Leave in {wt}: patch.diff (output of `git diff` for the non-test source change only, to be applied with `git apply` on the original tree), the demo test file, and NOTES.md (what the change is, why it breaks the property, what is needed to trigger it). Leave the worktree with the change applied. Report briefly what you did and the outcome of the four confirmations.""")
